@@ -14,6 +14,7 @@ Re-extracts on every run
     block count of the tail call and the copy loop (translated by sponge.py's statement translator); `shake*_ctx_release` must be
     `free(state->ctx);`.  Emitted as `shakeN.run` in the Option monad over the generated wrapper programs.
   * the exported `SHAKE128` / `SHAKE256`: exactly `shakeN(a, b, c, d); return 0;`, arguments bound positionally.
+  * `shake128/256[_inc]_ctx_clone` (malloc + memcpy of 25 / 26 lanes) and `_ctx_release` (`free(state->ctx);`, shape-checked).
 Anything else raises TranslateError.
 """
 import os, re, sys
@@ -222,6 +223,33 @@ def upper(src, b):
             "  %s.run F fuel %s %soff %s %s %s s0 t0 ia ta iq1 iq2 ic" % (callee, a[0], a[0], a[1], a[2], a[3]), ""]
 
 
+CLONE = ("dest - > ctx = malloc ( %s ) ; if ( dest - > ctx == NULL ) { exit ( 111 ) ; } "
+         "memcpy ( dest - > ctx , src - > ctx , %s ) ;")
+
+
+def clone_release(src, fam, inc):
+    """`shakeN[_inc]_ctx_clone`: malloc(M); NULL check; memcpy(dest->ctx, src->ctx, M) with M = 25 / 26 lanes (both occurrences resolved
+    from the C text) -> `memcpyCtx lanes`;  `shakeN[_inc]_ctx_release`: exactly `free(state->ctx);` (no observable effect on the model:
+    shape-checked only)"""
+    base = "shake%s%s_ctx_" % (fam, "_inc" if inc else "")
+    ty = "shake%s%sctx" % (fam, "inc" if inc else "")
+    args, body = find_function(src, base + "clone")
+    if not re.match(r"\s*%s\s*\*\s*dest\s*,\s*const\s+%s\s*\*\s*src\s*$" % (ty, ty), args):
+        raise TranslateError("%sclone: unexpected parameter list %r" % (base, args))
+    t = " ".join(sponge.tokenize(body, base + "clone"))
+    lanes = None
+    for mname, n in LANES.items():
+        if t == CLONE % (mname, mname) and re.search(r"#define\s+%s\s+\(sizeof\(uint64_t\)\s*\*\s*%d\)" % (mname, n), src):
+            lanes = n
+    if lanes is None:
+        raise TranslateError("%sclone: not malloc(M); NULL check; memcpy(dest->ctx, src->ctx, M)" % base)
+    args, body = find_function(src, base + "release")
+    if not re.match(r"\s*%s\s*\*\s*state\s*$" % ty, args) or sponge.tokenize(body, base) != "free ( state - > ctx ) ;".split():
+        raise TranslateError("%srelease is not free(state->ctx)" % base)
+    return ["/-- `%sclone`: fresh allocation `dest0` (arbitrary), then memcpy of %d lanes from `src->ctx` -/" % (base, lanes),
+            "def %sclone.run (src : State × Nat) (dest0 : State × Nat) : State × Nat := memcpyCtx %d dest0 src" % (base, lanes), ""]
+
+
 def emit(repo):
     src = strip_c_comments(open(os.path.join(repo, "src/common/generic/fips202.c")).read())
     mac = macros(src)
@@ -246,6 +274,12 @@ def emit(repo):
         L += oneshot(src, mac, b)
     for b in ("128", "256"):
         L += upper(src, b)
+    L += ["/-- `memcpy(dst, src, 8 * nl)` on a context = 25 lanes + (for the incremental API) the counter `s_inc[25]` as 26th lane -/",
+          "def memcpyCtx (nl : Nat) (dst src : State × Nat) : State × Nat :=",
+          "  (Vector.ofFn fun i => if i.val < nl then src.1[i] else dst.1[i], if 25 < nl then src.2 else dst.2)", ""]
+    for b in ("128", "256"):
+        for inc in (False, True):
+            L += clone_release(src, b, inc)
     L += ["end SqiGen.Sponge", ""]
     return "\n".join(L)
 
